@@ -68,6 +68,15 @@ CHECKS["C06"] = dict(
     note="Trusts jsonschema/referencing, /proc/self/fd, and the untraced run as the reference for which nodes started.",
     design="DESIGN.md section 4 C06")
 
+CHECKS["C07"] = dict(
+    technique="Hypothesis-generated pipelines and contexts executed traced in child processes under four host time zones; SER fields compared with the reference interpreter's per-node log and a recording transport; digest-chain and equal-content metamorphic relations; wall-clock bracket oracle for timestamps",
+    text=("Generated-input search (4.8k cases quick, 42k thorough; each TZ in its own interpreter). For every SER: created/updated "
+          "keys vs the exact context diff, processor.ref vs the class that ran, every resolved parameter's value and channel vs the "
+          "reference log, the four built-in checks vs the stated conditions, digest chains and equal-content digests (also across two "
+          "runs), non-negative durations, and every timestamp parsed as RFC 3339 'Z' and bracketed by the harness' own UTC clock."),
+    note="Trusts the reference interpreter (C01), the recording transport, time.time() of the harness process (+-2 s).",
+    design="DESIGN.md section 4 C07")
+
 NOT_YET = {}
 
 
